@@ -87,13 +87,24 @@ fn uni<'a>() -> impl Parser<'a, &'a str, Out, Ex<'a>> + Clone + Send + Sync {
     choice((kw, id, sym)).padded().repeated().at_least(1).collect::<Vec<i64>>()
 }
 
+/// Regex tokens, some with look-behind-sensitive assertions (`\\b`, `(?m)^`): regex-automata keeps a
+/// cache pool behind every compiled regex, shared by all threads that use the parser.
+fn rx<'a>() -> impl Parser<'a, &'a str, Out, Ex<'a>> + Clone + Send + Sync {
+    let word = chumsky::regex::regex::<&'a str, Ex<'a>>("(?-u:\\b)[a-z]+").map(|s: &str| 100 + s.len() as i64);
+    let number = chumsky::regex::regex::<&'a str, Ex<'a>>("[0-9]+").map(|s: &str| num(s));
+    let hash = chumsky::regex::regex::<&'a str, Ex<'a>>("(?m)^#").to(-1i64);
+    let punct = one_of("=;. \n").to(-2i64);
+    choice((hash, word, number, punct)).repeated().at_least(1).collect::<Vec<i64>>()
+}
+
 fn make<'a>(z: usize) -> Shared<'a> {
     match z {
         0 => Arc::new(memo()),
         1 => Arc::new(pratt()),
         2 => Arc::new(valid()),
         3 => Arc::new(mix()),
-        _ => Arc::new(uni()),
+        4 => Arc::new(uni()),
+        _ => Arc::new(rx()),
     }
 }
 
@@ -109,6 +120,7 @@ static C1: LazyLock<Cache<C<1>>> = LazyLock::new(|| Cache::new(C::<1>));
 static C2: LazyLock<Cache<C<2>>> = LazyLock::new(|| Cache::new(C::<2>));
 static C3: LazyLock<Cache<C<3>>> = LazyLock::new(|| Cache::new(C::<3>));
 static C4: LazyLock<Cache<C<4>>> = LazyLock::new(|| Cache::new(C::<4>));
+static C5: LazyLock<Cache<C<5>>> = LazyLock::new(|| Cache::new(C::<5>));
 
 fn cached<'a>(z: usize) -> &'a Shared<'a> {
     match z {
@@ -116,17 +128,19 @@ fn cached<'a>(z: usize) -> &'a Shared<'a> {
         1 => C1.get(),
         2 => C2.get(),
         3 => C3.get(),
-        _ => C4.get(),
+        4 => C4.get(),
+        _ => C5.get(),
     }
 }
 
-const NZ: usize = 5;
+const NZ: usize = 6;
 const POOLS: [&[&str]; NZ] = [
     &["aabx", "aay", "bcz", "aabz", "ay"],
     &["1+2*3", "-1^2!", "2 * (3", "4!+5"],
     &["1 2 3;", "1 300 2;", "1 x 2;", "1 2"],
     &["(let, ab, x1)", "fn abc 12", "(ac, 12345, )", "(let ; ab)", "lettuce ab"],
     &["néé caféé", "a→ p≠ q", "été étéé", "αβγ→δ", "x+y"],
+    &["v0=10px;", "#a 1\n#b", "ab 12cd", "a#b.c"],
 ];
 
 fn show<'a>(p: &Shared<'a>, s: &'a str, check: bool) -> String {
@@ -144,7 +158,10 @@ fn main() {
     // sequential references from brand-new parsers
     let mut refs: Vec<Vec<(String, String)>> = Vec::new();
     for z in 0..NZ {
-        refs.push(POOLS[z].iter().map(|s| (show(&make(z), s, false), show(&make(z), s, true))).collect());
+        // (one fresh parser per grammar: building a regex under Miri is expensive; sequential reuse of
+        // one value is C13 too and is what histsim covers)
+        let fresh = make(z);
+        refs.push(POOLS[z].iter().map(|s| (show(&fresh, s, false), show(&fresh, s, true))).collect());
     }
     let refs = Arc::new(refs);
     for z in 0..NZ {
